@@ -16,12 +16,12 @@ from gdlib import NAMES, CSIZE, NCOMP, TSIZE, ISFLOAT, EXT, ENCS
 PID = "C03"
 KEY_TEXTPAD = "regression/putdata/text/complex/write-past-end-pads-with-0-instead-of-0;0"
 KEY_MPLEX = "regression/putdata/mplex/unequal-spf/tests-B[i]-copies-C[i*spfB/spfA]"
-KEY_HERE_OOP = "putdata/GD_HERE/out-of-place-encoding/position-is-read-side"
-KEY_HERE_SIE = "putdata/GD_HERE/sie/position-is-last-sample-written"
+KEY_HERE_OOP = "regression/putdata/GD_HERE/out-of-place-encoding/position-is-read-side"
+KEY_HERE_SIE = "regression/putdata/GD_HERE/sie/position-is-last-sample-written"
 KEY_OOP_READ = "regression/getdata-after-putdata/out-of-place-encoding/old-file-open/read-restarts-empty-temporary"
 KEY_BZ2_EXTRA = "regression/putdata/bzip2/overwrite-then-write-past-end/extra-zero-samples-appended"
 KEY_SIE_STALE = "regression/putdata/sie/write-at-current-position-after-unflushed-append/stale-fstat-size-truncates"
-KEY_SIE_ZEROLEN = "putdata/sie/overwrite-last-sample-of-one-sample-record-after-single-record-write/zero-length-record"
+KEY_SIE_ZEROLEN = "regression/putdata/sie/overwrite-last-sample-of-one-sample-record-after-single-record-write/zero-length-record"
 
 
 def f32(v):
@@ -449,6 +449,38 @@ def main():
                           {"kind": "impl-vs-spec", "format": open(os.path.join(d, "format")).read(), "script": sc[13:17], "got": r[16], "want": "get 4 0 11 12 3 4"})
     else:
         derived_bad.append(("harness", "derived-write script failed: " + out[-300:]))
+    # first-order LINCOM / POLYNOM, RECIP, monotonic LINTERP (values chosen so that double arithmetic is exact)
+    d2 = os.path.join(root, "der2"); os.mkdir(d2)
+    open(os.path.join(d2, "format"), "w").write(
+        "/ENCODING none\nr1 RAW FLOAT64 1\nr2 RAW FLOAT64 1\nr3 RAW FLOAT64 1\nr4 RAW FLOAT64 1\nr5 RAW INT32 1\n"
+        "lc LINCOM r1 2 1\npo POLYNOM r2 3 0.5\nrc RECIP r3 8\nli LINTERP r4 table.lut\nlci LINCOM r5 4 -8\n")
+    open(os.path.join(d2, "table.lut"), "w").write("0 0\n10 20\n20 60\n30 120\n")
+    ys = [1.0, 3.0, -5.0, 21.0, 0.5]
+    sc2 = ["open %s rw" % d2,
+           "put r1 9 0 0 7 " + " ".join("%x" % f64(9) for _ in range(7)), "put lc 9 0 1 5 " + " ".join("%x" % f64(y) for y in ys), "get r1 9 0 0 7", "get lc 9 0 0 7",
+           "put po 9 0 0 5 " + " ".join("%x" % f64(y) for y in ys), "get r2 9 0 0 5",
+           "put rc 9 0 0 4 " + " ".join("%x" % f64(y) for y in (1.0, 2.0, -4.0, 16.0)), "get r3 9 0 0 4", "get rc 9 0 0 4",
+           "put li 9 0 0 5 " + " ".join("%x" % f64(y) for y in (0.0, 10.0, 20.0, 40.0, 90.0)), "get r4 9 0 0 5", "get li 9 0 0 5",
+           "put lci 4 0 0 3 0 4 64", "get r5 4 0 0 3", "close"]
+    rc, out = vlib.sh([exe], inp=("\n".join(sc2) + "\n").encode())
+    r2 = out.strip().split("\n")
+    chk.cov["evaluations"] += 6
+    if len(r2) == len(sc2):
+        def want(line, vals, what, intcomps=False):
+            g = gdlib.parse_get(line)
+            w = vals if intcomps else [f64(v) for v in vals]
+            if g is None or g[1] != 0 or g[2] != w:
+                derived_bad.append(("putdata/" + what.split()[0].lower(), "%s: reads %s, expected %s" % (what, line[:200], gdlib.hexs(w))))
+        want(r2[3], [9.0] + [(y - 1) / 2 for y in ys] + [9.0], "LINCOM r1 2 1 write at 1..5: r1")
+        want(r2[4], [19.0] + ys + [19.0], "LINCOM read-back")
+        want(r2[6], [(y - 3) / 0.5 for y in ys], "POLYNOM r2 3 0.5 write: r2")
+        want(r2[8], [8.0, 4.0, -2.0, 0.5], "RECIP r3 8 write: r3")
+        want(r2[9], [1.0, 2.0, -4.0, 16.0], "RECIP read-back")
+        want(r2[11], [0.0, 5.0, 10.0, 15.0, 25.0], "LINTERP (0,0)(10,20)(20,60)(30,120) write: r4")
+        want(r2[12], [0.0, 10.0, 20.0, 40.0, 90.0], "LINTERP read-back")
+        want(r2[14], [2, 3, 27], "LINCOM r5 4 -8 write to an INT32 field: r5", True)
+    else:
+        derived_bad.append(("harness", "inverse-write script failed: " + out[-300:]))
     for key, why in derived_bad:
         chk.violation(key, why, {"kind": "impl-vs-spec", "why": why, "script": sc})
 
